@@ -349,7 +349,13 @@ def ch_pair(ctx, cases=None) -> Channel:
             same_ast = m1.ast_us == m2.ast_us
             root_a, root_b = etree.fromstring(r1.data), etree.fromstring(r2.data)
             if kind != "rollover":
+                # (with drift=N the manifest is laid out for now - N: a stream whose age as of THAT instant is below
+                # the requested depth is young, and its clamped depth legitimately grows with the clock)
+                eff_age_us = segchecks.us_since_epoch(t1) - int(opts.get("drift", 0)) * 10 ** 6 - (m1.ast_us or 0)
+                young_under_drift = "drift" in opts and m2.tsbd_us is not None and eff_age_us < m2.tsbd_us + 2 * 10 ** 6
                 for attr in ("availabilityStartTime", "minimumUpdatePeriod", "timeShiftBufferDepth"):
+                    if attr == "timeShiftBufferDepth" and young_under_drift:
+                        continue
                     if root_a.get(attr) != root_b.get(attr):
                         ch.oracle_failures.append({**case, "kind": "same-request-different-" + attr,
                                                    "what": f"MPD@{attr} {root_a.get(attr)} at T1, {root_b.get(attr)} at T2 "
